@@ -128,15 +128,19 @@ Definition kmeans (st : bool) (d k : nat) (X : list vec) (labels : list nat) (ma
    (note `Labels.max() < nbclusters + 1`: the label value k itself is accepted;
    when the labelling is rejected maxiter/delta are passed on unchanged). *)
 Definition default_delta : Q := 7378697629483821 # 73786976294838206464.  (* the double 0.0001 *)
+Definition api_k (k : Z) (n : nat) : Z :=
+  let k1 := if (k <? 1)%Z then 1%Z else k in
+  if (Z.of_nat n <? k1)%Z then Z.of_nat n else k1.
+Definition api_labels_ok (k2 : Z) (labels : list nat) : bool :=
+  forallb (fun l => (Z.of_nat l <? k2 + 1)%Z) labels.
+Definition api_maxiter (ok : bool) (maxiter : Z) : Z :=
+  if ok then (if (0 <? maxiter)%Z then maxiter else 300%Z) else maxiter.
 Definition kmeans_api (st : bool) (d : nat) (k : Z) (X : list vec) (labels : list nat) (maxiter : Z) (delta : Q)
   : list vec * list nat * option Q :=
-  let n := Z.of_nat (length X) in
-  let k1 := if (k <? 1)%Z then 1%Z else k in
-  let k2 := if (n <? k1)%Z then n else k1 in
-  let ok := forallb (fun l => (Z.of_nat l <? k2 + 1)%Z) labels in
-  let mi := if ok then (if (0 <? maxiter)%Z then maxiter else 300%Z) else maxiter in
+  let k2 := api_k k (length X) in
+  let ok := api_labels_ok k2 labels in
   let de := if ok then (if Qltb delta 0 then default_delta else delta) else delta in
-  kmeans st d (Z.to_nat k2) X labels (Z.to_nat mi) de.
+  kmeans st d (Z.to_nat k2) X labels (Z.to_nat (api_maxiter ok maxiter)) de.
 
 Definition km_centers (r : list vec * list nat * option Q) := fst (fst r).
 Definition km_labels (r : list vec * list nat * option Q) := snd (fst r).
